@@ -48,6 +48,8 @@ class C07(Check):
     functions = ['Network.shortest_path', 'Network.run_routing_forward', 'Network.run_routing_backward', 'Track.reverse', 'Track.__gt__', 'Track.__add__']
     stubs = ['none']
     assumptions = ['edge weights symbolic reals in [0,1000]; edge geometries are concrete polylines (2-4 vertices) stored from the edge source to its target; node positions concrete and distinct',
+                   'cut jobs: shortest_path(source, target, cut) with a symbolic search radius assumed not below the true distance (the target is within reach, so the same route is due)',
+                   'long jobs: edge polylines of 34..62 unique vertices',
                    'oracle: minimum over all simple permitted walks; geometry decoded against the chained travel-oriented polylines of permitted edges']
     outside = ['source == target', 'A* mode', 'negative weights', 'topologies beyond the enumerated / sampled ones']
     budget = {'quick': 170, 'thorough': 2400}
@@ -72,6 +74,19 @@ class C07(Check):
                         for t in N3:
                             if s != t:
                                 js.append(dict(kind='path', topo=topo, s=s, t=t, style=style))
+        # scale / configuration probes: polylines of 34..62 vertices per edge; a finite search radius (cut) that is not below the true distance
+        for k in (1, 2, 3):
+            for topo in netlib.topologies(N3, k):
+                for s in N3:
+                    for t in N3:
+                        if s == t:
+                            continue
+                        r = rng.random()
+                        if r < {1: 1.0, 2: 0.25, 3: 0.01}[k] * (1 if tier == 'quick' else 4):
+                            js.append(dict(kind='path', topo=topo, s=s, t=t, style='long'))
+                        r = rng.random()
+                        if r < {1: 1.0, 2: 0.5, 3: 0.02}[k] * (1 if tier == 'quick' else 4):
+                            js.append(dict(kind='path', topo=topo, s=s, t=t, style='plain', cut=True))
         # a dense 5-node multigraph (three parallel edges, mixed orientations): most weights concrete, the parallel and two further
         # weights symbolic, so that one search performs several decrease-key operations (priority-queue clean-up paths)
         dense = [('n0', 'n1', 0), ('n1', 'n2', 0), ('n0', 'n1', 0), ('n0', 'n3', 1), ('n1', 'n2', 1), ('n1', 'n0', 0), ('n1', 'n3', 0), ('n1', 'n4', 0), ('n3', 'n2', 0)]
@@ -79,6 +94,7 @@ class C07(Check):
         N5 = ['n0', 'n1', 'n2', 'n3', 'n4']
         for s, t in (('n1', 'n3'), ('n4', 'n2')) if tier == 'quick' else [(a, b) for a in N5 for b in N5 if a != b]:
             js.append(dict(kind='path', topo=dense, s=s, t=t, style='plain', fixed=fixed))
+            js.append(dict(kind='path', topo=dense, s=s, t=t, style='plain', fixed=fixed, cut=True))
         if tier == 'thorough':
             extra = []
             for _ in range(400):
@@ -103,9 +119,15 @@ class C07(Check):
         net = netlib.build(topo, W, nodes, style)
         s, t = job['s'], job['t']
         sums = netlib.walk_sums(topo, s, t, Wz)
+        kw = {}
+        if job.get('cut'):
+            cut = eng.real('cut', 0, 4 * WMAX)
+            if sums:
+                eng.assume(z3.Or([x <= cut.z for x in sums]))        # the search radius is not below the true distance: the target is within reach
+            kw = dict(cut=cut)
         for rnd in (1, 2):
             try:
-                p = net.shortest_path(s, t)
+                p = net.shortest_path(s, t, **kw)
             except Exception as e:
                 ctx.fail('shortest_path raised %s (query %d)' % (type(e).__name__, rnd))
                 return
@@ -149,9 +171,14 @@ class C07(Check):
         s, t = job['s'], job['t']
         true = D[(s, t)]
         outputs = {}
+        kw = {}
+        if job.get('cut'):
+            if true != float('inf') and float(inp['cut']) < true:
+                return dict(violation=None, outputs={})
+            kw = dict(cut=float(inp['cut']))
         for rnd in (1, 2):
             try:
-                p = net.shortest_path(s, t)
+                p = net.shortest_path(s, t, **kw)
             except Exception as e:
                 return dict(violation='shortest_path raised %s: %s (query %d)' % (type(e).__name__, e, rnd))
             if true == float('inf'):
